@@ -22,11 +22,25 @@ PLAN = {
         "level": "proof",
         "contracts": ["contracts.fuzz"],
         "bounded": ["bounded.c01"],
+        "assumptions": [
+            "precondition of every fuzz() contract: the Gmutator probabilities of the node's settings are 0 / False (the default); with a positive probability the code deliberately produces non-derivations",
+            "`Derives`, `CatUpTo`, `RepUpTo` are inductive predicates given by their introduction rules (the definition of 'derivation'); the rules enter as assumptions instantiated at the terms of each proof",
+            "exrex.getone(p) returns a text matching p (external library); bytes regexes are read through Latin-1 on both sides, as Terminal.check does",
+            "distance_to_completion and node budgets are abstracted to unconstrained reals (no NaN): they steer which expansion is chosen, never what counts as a derivation",
+            "random.random / randint / choice are non-deterministic choices within their documented ranges",
+            "structural induction over the call depth: each fuzz() is checked against the abstract contract of its callees; termination of the recursion is not claimed",
+            "crossover, mutation, repetition repair and fix_individual are NOT under contract (bounded half only)",
+        ],
     },
     "C16": {
         "level": "exploration",
         "contracts": ["contracts.fuzz"],
         "bounded": ["bounded.c16"],
+        "assumptions": [
+            "the value of a generator is whatever Grammar.generate_string (the user's expression, run through eval) returns; Grammar.parse is the subject of C04",
+            "the tree returned by a recursive replace_multiple call is named by a function of the node it is called on (each node is visited once per call)",
+            "only NonTerminalNode.fuzz (generator branch), Grammar.generate and replace_multiple are under contract; parsing, copying and the search operators are covered by the bounded half only",
+        ],
     },
     "C15": {
         "level": "proof",
@@ -81,6 +95,11 @@ PLAN = {
         "contracts": ["contracts.evaluation", "contracts.constraints", "contracts.search"],
         "bounded": ["bounded.c07"],
         "lemmas": True,
+        "assumptions": [
+            "selector contracts: match lists are sequences of tree identities in document order; FindS / FindDirectS / flat-maps are given by their defining clauses, instantiated at the loop index",
+            "DerivationTree.find_all_trees (recursive) is an assumed contract; ItemSearch, SelectiveSearch, AnnotatedSearch and the text->search translation are covered by the bounded half only",
+            "the fitness overrides use quantify()/find() through an abstract result list; its link to the selector contracts is by name, not mechanised",
+        ],
     },
     "C11": {
         "level": "proof",
